@@ -822,8 +822,10 @@ func (s *Sim) resetQuiescence() {
 			if res := s.W.Res[k.name]; res != nil && res.V != nil && s.unsure[res.V[k.q]] {
 				found = true
 			}
+			// (any later get request for it will do: one that waited in the reset
+			// throttle until the entry was gone cannot be told from a new load)
 			for _, r := range s.tr.reqs {
-				if r.Type == "get" && r.Rf == 1 && r.Name == k.name && r.Query == k.q && r.Seq > rec.DlvSeq {
+				if r.Type == "get" && r.Name == k.name && r.Query == k.q && r.Seq > rec.DlvSeq {
 					found = true
 				}
 			}
